@@ -41,7 +41,7 @@ MAX_DIM = 64  # largest register dimension a wrapper stack may reach
 
 # channel families of vf.gen.gates that are probabilistic mixtures of unitaries (documented per class)
 # tableau-defined gates: powers/inverses are only defined up to global phase (a tableau carries none)
-PHASELESS_POW = {"SingleQubitClifford"}
+PHASELESS_POW = {"SingleQubitClifford", "CliffordN"}
 
 MIXTURE_CHANNELS = {"Depolarize", "Depolarize2", "AsymDepolarize", "BitFlip", "PhaseFlip", "RandomGate",
                     "MixedUnitary"}
@@ -102,6 +102,31 @@ def _local_families():
                     arity_of=lambda p: len(_BOOL_EXPRS[p["i"] % len(_BOOL_EXPRS)][0]), tags=frozenset({"diag"})))
 
 
+    def clifford_n(p):
+        kind = p.get("kind", "ops")
+        if kind in ("CNOT", "CZ", "SWAP"):
+            return getattr(cirq.CliffordGate, kind)
+        n = 3 if int(p.get("n", 2)) >= 3 else 2
+        qs = cirq.LineQubit.range(n)
+        ops = []
+        for c in list(p.get("ops", []))[:4]:
+            c = int(c)
+            g, a, b_ = c % 6, (c // 6) % n, (c // 36) % n
+            if b_ == a:
+                b_ = (a + 1) % n
+            ops.append([cirq.H(qs[a]), cirq.S(qs[a]), cirq.CNOT(qs[a], qs[b_]), cirq.CZ(qs[a], qs[b_]),
+                        cirq.X(qs[a]), cirq.SWAP(qs[a], qs[b_])][g])
+        if not ops:
+            ops = [cirq.CNOT(qs[0], qs[1])]
+        return cirq.CliffordGate.from_op_list(ops, qs)
+
+    # multi-qubit tableau-backed gates: their own _act_on_ pads the tableau onto the state's axes
+    G._reg(G.Family("CliffordN", None, st.one_of(
+        st.fixed_dictionaries({"kind": st.sampled_from(["CNOT", "CNOT", "CZ", "SWAP"]), "n": st.just(2)}),
+        st.fixed_dictionaries({"kind": st.just("ops"), "n": st.integers(2, 3),
+                               "ops": st.lists(st.integers(0, 323), min_size=2, max_size=3)})),
+        clifford_n, arity_of=lambda p: 2 if p.get("kind", "ops") != "ops" else (3 if int(p.get("n", 2)) >= 3 else 2),
+        weight=2))
     G._reg(G.Family("AncillaCZPow", 2, st.fixed_dictionaries({"e": G.exponents()}), lambda p: AncillaCZPow(p["e"])))
 
 
